@@ -46,7 +46,7 @@ type Revappend struct {
 func (f *Revappend) Call(s *slip.Scope, args slip.List, depth int) slip.Object {
 	slip.CheckArgCount(s, depth, f, args, 2, 2)
 	list, ok := args[0].(slip.List)
-	if !ok {
+	if !ok && args[0] != nil {
 		slip.TypePanic(s, depth, "list", args[0], "list")
 	}
 	if 0 < len(list) {
@@ -59,6 +59,11 @@ func (f *Revappend) Call(s *slip.Scope, args slip.List, depth int) slip.Object {
 		}
 	}
 	switch ta := args[1].(type) {
+	case nil:
+		// nil is the empty list, nothing to append and not a dotted tail
+		if len(list) == 0 {
+			return nil
+		}
 	case slip.List:
 		list = append(list, ta...)
 	default:
